@@ -3,6 +3,7 @@
 package main
 
 import (
+	"bytes"
 	"encoding/binary"
 	"fmt"
 	"os"
@@ -10,6 +11,7 @@ import (
 
 	"github.com/linuxboot/fiano/pkg/uefi"
 	. "verifharness/common"
+	"verifharness/nvargen"
 	"verifharness/uefigen"
 	"verifharness/uefiops"
 )
@@ -191,6 +193,125 @@ func nestedImage(levels int, over int) []byte {
 	return inner
 }
 
+// ---- NVAR stores: a raw file with the NVAR GUID makes NewFile call NewNVarStore.  The field map of
+// the store (walked from its bytes, nested stores included) lets the boundary-value substitution
+// reach the entry fields: size, next link, attribute byte, GUID index byte, name terminator,
+// extended-header size.  The model treats the store as an oracle (Model/Ffs.v [nvar], instantiated
+// with "no store" in the runner), so these cases are P-only.
+
+type nvField struct {
+	f    uefigen.Field
+	vals []uint64 // extra values besides BoundaryValues
+}
+
+func nvarFields(store []byte, base int, tableLen int, out []nvField) []nvField {
+	o := 0
+	for o+10 <= len(store) && string(store[o:o+4]) == "NVAR" {
+		size := int(store[o+4]) | int(store[o+5])<<8
+		if size < 10 || o+size > len(store) {
+			break
+		}
+		rem := len(store) - o
+		attrs := store[o+9]
+		out = append(out,
+			nvField{uefigen.Field{Name: "nvar.size", Off: base + o + 4, Width: 2, Remaining: rem, HdrSize: 10}, []uint64{uint64(size) - 1, uint64(size) + 1, 9, 11}},
+			nvField{uefigen.Field{Name: "nvar.next", Off: base + o + 6, Width: 3, Remaining: rem, HdrSize: 10}, []uint64{uint64(size), uint64(size) - 1, 0xFFFFFE}},
+			nvField{uefigen.Field{Name: "nvar.attrs", Off: base + o + 9, Width: 1, Remaining: rem, HdrSize: 10},
+				[]uint64{0x80, 0x81, 0x82, 0x84, 0x88, 0x90, 0xA0, 0xC0, 0x83, 0x8A, 0x98, 0x9C, 0x7F, uint64(attrs ^ 0x04), uint64(attrs ^ 0x08), uint64(attrs ^ 0x10), uint64(attrs ^ 0x02)}})
+		if attrs&0x08 == 0 {
+			p := o + 10
+			if attrs&0x04 != 0 {
+				p += 16
+			} else {
+				out = append(out, nvField{uefigen.Field{Name: "nvar.guidindex", Off: base + p, Width: 1, Remaining: rem, HdrSize: 10},
+					[]uint64{0xFF, 0xFE, 0x80, 0x7F, 2, uint64(tableLen), uint64(tableLen) + 1, uint64(tableLen) - 1}})
+				p++
+			}
+			// name terminator
+			q := p
+			w := 1
+			if attrs&0x02 != 0 {
+				for q < o+size && store[q] != 0 {
+					q++
+				}
+			} else {
+				w = 2
+				for q+1 < o+size && (store[q] != 0 || store[q+1] != 0) {
+					q += 2
+				}
+			}
+			if q+w <= o+size {
+				out = append(out, nvField{uefigen.Field{Name: "nvar.nameterm", Off: base + q, Width: w, Remaining: o + size - q, HdrSize: 0}, []uint64{0x41, 0xFFFF, 0xD800, 0x0100}})
+				data := q + w
+				if data+14 <= o+size && string(store[data:data+4]) == "NVAR" {
+					out = nvarFields(store[data:o+size], base+data, 0, out)
+				}
+			}
+		}
+		if attrs&0x10 != 0 && size >= 12 {
+			out = append(out, nvField{uefigen.Field{Name: "nvar.extsize", Off: base + o + size - 2, Width: 2, Remaining: size, HdrSize: 3},
+				[]uint64{uint64(size) - 10, uint64(size) - 9, uint64(size) - 11, 2, 3, 4}})
+		}
+		o += size
+	}
+	return out
+}
+
+func genNvar(r *Rng, tier string, emit Emit) {
+	n := 3
+	if tier == "thorough" {
+		n = 200
+	}
+	for it := 0; it < n; it++ {
+		rr := r.Fork(uint64(2000 + it))
+		st := nvargen.Gen(rr, 0xFF, rr.Pick(0, 1))
+		sb := st.Bytes()
+		nf := &uefigen.File{Type: 1, State: 0xF8, Body: sb}
+		copy(nf.GUID[:], uefi.NVAR[:])
+		v := &uefigen.Vol{FSGUID: uefigen.FFS2, Attrs: 0x4FEFF, Revision: 2, BlockSize: 64, Files: []*uefigen.File{nf}, FreeSpace: rr.Pick(0, 8, 100)}
+		if rr.Bool() {
+			v.Files = append([]*uefigen.File{uefigen.GenFile(rr, uefigen.Opts{Strings: true}, 0)}, v.Files...)
+		}
+		img, _ := uefigen.EmitRegion(&uefigen.Region{Elems: []uefigen.Elem{{Vol: v}}})
+		base := bytes.Index(img, sb)
+		if base < 0 || len(sb) == 0 {
+			continue
+		}
+		emit("P", "p_total", H(img), "x")
+		emit("P", "p_bounded", H(img))
+		// the GUID table is what follows the free space at the end of the store: count its entries
+		tl := 0
+		for k := len(sb); k >= 16 && !allByte(sb[k-16:k], 0xFF); k -= 16 {
+			tl++
+			if tl > 8 {
+				break
+			}
+		}
+		for _, nf := range nvarFields(sb, base, tl, nil) {
+			seen := map[uint64]bool{}
+			for _, val := range append(uefigen.BoundaryValues(nf.f), nf.vals...) {
+				val &= uint64(1)<<(8*uint(nf.f.Width)) - 1
+				if seen[val] {
+					continue
+				}
+				seen[val] = true
+				m := uefigen.Mutate(img, nf.f, val)
+				emit("P", "p_total", H(m), "-")
+				emit("P", "p_bounded", H(m))
+			}
+		}
+	}
+}
+
+func allByte(b []byte, x byte) bool {
+	for _, c := range b {
+		if c != x {
+			return false
+		}
+	}
+	return true
+}
+
 func genOverlap(tier string, modelMax int, emit Emit) {
 	one := func(img []byte) {
 		emit("P", "p_total", H(img), "-")
@@ -242,6 +363,7 @@ func gen(r *Rng, tier string, emit Emit) {
 		}
 	}
 	genOverlap(tier, modelMax, emit)
+	genNvar(r, tier, emit)
 	// ME flash partition tables: valid seeds and boundary values of every header field
 	for it := 0; it < 6; it++ {
 		rr := r.Fork(uint64(1000 + it))
